@@ -417,6 +417,7 @@ pub fn run(tier: Tier) -> i32 {
         Box::new(crate::families::scale_family(true)),
         Box::new(crate::families::unicode_family()),
         Box::new(crate::families::relation_family()),
+        Box::new(crate::families::collision_family()),
         Box::new(ms_e(if t { 1 } else { 0 })),
     ];
     let corpus = corpus_files();
